@@ -82,7 +82,7 @@ def execute_case(prop, case, want_trace=False):
     res['nontrivial'] = bool(sim.fault_counts) or sim.preempts > 0 or bool(case.get('faults'))
     if res['violations'] or want_trace or res['outcome'] in ('harness-error',):
         res['decisions'] = rle(sim.decisions)
-        res['trace_tail'] = [list(map(str, r)) for r in sim.log[-120:]]
+        res['trace_tail'] = [list(map(str, r)) for r in sim.log[-(int(os.environ.get('VERIF_TRACE_TAIL', '2000')) if want_trace else 120):]]
         res['died'] = [list(map(str, d)) for d in sim.died]
         res['landings'] = sim.landings[-5:]
         if outcome_is_stuck(res['outcome']):
@@ -206,8 +206,12 @@ def run_batch(prop, cases, nproc=None, wall=90.0, progress=None):
                 with os.fdopen(w, 'wb') as f:
                     for i in range(z, n, nproc):
                         res = run_one_forked(prop, cases[i], wall=wall)
-                        if res.get('outcome') == 'harness-error' and (res.get('harness_error') or {}).get('why') == 'wall-timeout':
-                            res = run_one_forked(prop, cases[i], wall=wall)   # retry once alone
+                        for _retry in range(2):
+                            why = (res.get('harness_error') or {}).get('why') if res.get('outcome') == 'harness-error' else None
+                            if why in ('wall-timeout', 'no result from run process', 'real-blocking-call or wall timeout'):
+                                res = run_one_forked(prop, cases[i], wall=wall)   # environmental (load / fork failure): retry
+                            else:
+                                break
                         line = json.dumps([i, res], default=jdefault).encode() + b'\n'
                         f.write(line)
                         f.flush()
